@@ -368,6 +368,7 @@ func joinGoroutines() int {
 
 func runJoinScenario(t *testing.T, tr *tracer, idx int, seed uint64) {
 	synctest.Test(t, func(t *testing.T) {
+		reseed(seed, idx) // the library's own randomness (ticker fuzz) follows the scenario's seed
 		r := kv.NewRand(seed*9000011 + uint64(idx))
 		ctors := joinCtors()
 		jc := ctors[idx%len(ctors)]
